@@ -4,7 +4,8 @@
    loaders/memory_cache.go on every run.  The Go memory model, races inside dependencies and
    the scheduler are outside the model; they are searched with the race detector by the driver. *)
 From Coq Require Import List String Bool Arith Sorted.
-From GSP Require Import Conc.Sem Conc.Theory Conc.Instance Generated.CacheSkeleton.
+From Coq Require Import ZArith.
+From GSP Require Import Conc.Sem Conc.Theory Conc.Instance Conc.LoaderModel Conc.LoaderTheory Generated.CacheSkeleton.
 Import ListNotations.
 Open Scope string_scope.
 
@@ -80,3 +81,63 @@ Proof.
               (shared_writes_ok_spec _ (proj2 (proj2 (proj2 cache_pure))))))).
 Qed.
 Print Assumptions C20_pure.
+
+(* Lock discipline of the translated skeleton, spelled out: on every control path of every entry-point
+   method of memoryCacheEngine (calls of other methods inlined), a map write happens only while the
+   write lock is held, a map read only while the read or the write lock is held, and the path ends
+   holding nothing (run_hold is the abstract interpretation of what the calling goroutine holds).
+   Together with C20_discipline_sound such skeletons are data-race-free under every interleaving. *)
+Theorem C20_writes_under_write_lock :
+  forall name sk, In (name, sk) generated_methods -> forall tr, In tr (paths sk) ->
+    (forall pre post, tr = (pre ++ EvWrite :: post)%list -> run_hold HN pre = Some HW) /\
+    (forall pre post, tr = (pre ++ EvRead :: post)%list -> run_hold HN pre = Some HR \/ run_hold HN pre = Some HW) /\
+    run_hold HN tr = Some HN.
+Proof. exact cache_writes_under_write_lock. Qed.
+Print Assumptions C20_writes_under_write_lock.
+
+(* The loader (HTTP branch of LoadDocument, Conc/LoaderModel.v) over the atomic cache, for every number of
+   goroutines and every interleaving of their steps, of the origin's answers (a new version each time,
+   with or without an expiry, or a failure) and of clock ticks: a load that returns a version it did not
+   fetch itself started before the (unique) expiry under which that version was stored. *)
+Theorem C20_no_stale_after_expiry :
+  forall (n : nat) (acts : list action) (s : lstate),
+  lrun Correct (linit n) acts = Some s ->
+  forall ts te v : Z, In (RLoad ts te (Some v)) (log s) ->
+    (exists fs fe, In (RServe v fs fe true) (log s) /\ (ts <= fs)%Z /\ (fe <= te)%Z) \/
+    (exists x, In (RStore v x) (log s) /\ (ts < x)%Z /\ forall x', In (RStore v x') (log s) -> x' = x).
+Proof. exact no_stale_after_expiry. Qed.
+Print Assumptions C20_no_stale_after_expiry.
+
+(* A load fails only if the origin failed one of the load's own requests. *)
+Theorem C20_failure_needs_origin_failure :
+  forall (n : nat) (acts : list action) (s : lstate),
+  lrun Correct (linit n) acts = Some s ->
+  forall ts te : Z, In (RLoad ts te None) (log s) ->
+    exists k fs fe, In (RServe k fs fe false) (log s) /\ (ts <= fs)%Z /\ (fe <= te)%Z.
+Proof. exact failure_needs_origin_failure. Qed.
+Print Assumptions C20_failure_needs_origin_failure.
+
+(* Hence the executable judgement that is applied to the logs recorded on the implementation accepts
+   every log the model can write ... *)
+Theorem C20_model_log_explained :
+  forall (n : nat) (acts : list action) (s : lstate),
+  lrun Correct (linit n) acts = Some s -> log_explained (rev (log s)) = true.
+Proof. exact model_log_explained. Qed.
+Print Assumptions C20_model_log_explained.
+
+(* ... and rejects the seeded variants: re-arming an expired entry before the refresh (C20-j) hands a
+   version that expired at 2 to a load that started at 3 and fetched nothing; waiting for another
+   goroutine's fetch without a fallback (C20-h) fails a load although the origin failed nobody. *)
+Theorem C20_rearm_refuted :
+  exists s, lrun (Rearm 5) (linit 2) ex_rearm_acts = Some s /\
+    In (RLoad 3 3 (Some 1%Z)) (log s) /\ log_explained (rev (log s)) = false /\
+    (forall fs fe, ~ In (RServe 1 fs fe true) (log s) \/ ~ (3 <= fs)%Z) /\ first_store (rev (log s)) 1 = Some 2%Z.
+Proof. exact rearm_refuted. Qed.
+Print Assumptions C20_rearm_refuted.
+
+Theorem C20_nofallback_refuted :
+  exists s, lrun NoFallback (linit 2) ex_nofallback_acts = Some s /\
+    In (RLoad 0 0 None) (log s) /\ (forall k fs fe, ~ In (RServe k fs fe false) (log s)) /\
+    log_explained (rev (log s)) = false.
+Proof. exact nofallback_refuted. Qed.
+Print Assumptions C20_nofallback_refuted.
